@@ -16,21 +16,27 @@ FILTERS = {"movimm": is_movimm}
 
 # property -> list of plans: (corpus, ctx, modes, quick sample size, thorough sample size, filter name, thorough-only)
 PLANS = {
-    "C01": [("C01", "solo0,solo37", "plain", 9000, None, None, False), ("C01", "solo37", "fit", 1500, None, None, False)],
+    "C01": [("C01", "solo0,solo37", "plain", 9000, None, None, False), ("C01", "solo37", "fit", 1500, None, None, False),
+            ("C01", "edge", "fit", 1500, 12000, None, False, 16)],
     "C02": [(c, "solo0", "plain", 1400, None, None, False) for c in ("C02a", "C02b", "C02c", "C02d", "C02e", "C02f", "C02g", "C02h", "C02i", "C02j")]
            + [("C02k", "solo0", "plain", 2500, None, None, False)]
-           + [("C02d", "solo0,mid,last", "plain,count", 500, 3000, None, False), ("C02h", "solo37", "fit", 700, 4000, None, False), ("C02g", "solo37", "fit", 400, 2000, None, False)],
+           + [("C02d", "solo0,mid,last", "plain,count", 500, 3000, None, False), ("C02h", "solo37", "fit", 700, 4000, None, False), ("C02g", "solo37", "fit", 400, 2000, None, False),
+              ("C02k", "edge", "fit", 800, None, None, False, 16), ("C02e", "edge", "fit", 500, 3000, None, False, 16)],
     "C03": [("C03", "solo0", "plain", 7000, None, None, False),
             # the same lines inside a program, in counting mode and where chunk fitting has to pad and assemble them again
-            ("C03", "solo0,mid,last", "plain,count", 700, 4000, None, False), ("C03", "solo37", "fit", 900, 5000, None, False)],
+            ("C03", "solo0,mid,last", "plain,count", 700, 4000, None, False), ("C03", "solo37", "fit", 900, 5000, None, False),
+            ("C03", "edge", "fit", 1500, 9000, None, False, 16)],
     "C04": [("C04a", "solo0", "plain", 3000, None, None, False), ("C04b", "solo0", "plain", 2500, None, None, False),
             ("C04c", "solo0", "plain", 2000, None, None, False),
             # chunk fitting assembles an instruction a second time after padding: the same forms at an offset where they do not fit the chunk
             ("C04a", "solo37", "fit", 1200, None, None, False), ("C04b", "solo37", "fit", 800, None, None, False), ("C04c", "solo37", "fit", 600, None, None, False),
+            ("C04a", "edge", "fit", 800, 6000, None, False, 16), ("C04c", "edge", "fit", 500, 3000, None, False, 16),
             ("C04d", "solo0", "plain", 0, None, None, True), ("C04e", "solo0", "plain", 0, None, None, True),
             ("C04f", "solo0", "plain", 0, None, None, True)],
     "C05": [("C05", "solo0,solo37", "plain", 6000, None, None, False), ("C05m", "solo0", "plain", 2500, None, None, False),
-            ("C05", "solo0,mid,last", "plain,count", 600, 4000, None, False), ("C05", "solo37", "fit", 800, 5000, None, False)],
+            ("C05", "solo0,mid,last", "plain,count", 600, 4000, None, False), ("C05", "solo37", "fit", 800, 5000, None, False),
+            # a 2-byte branch fits everywhere except on the last byte of a chunk
+            ("C05", "edge", "fit", 1500, None, None, False, 16), ("C05", "edge", "fit", 700, 5000, None, False, 5)],
     "C10": [("C10x", ALLCTX, ALLMODES, None, None, None, False), ("C10a", ALLCTX, ALLMODES, 4000, None, None, False),
             ("C10b", "solo0,mid", ALLMODES, 800, None, None, False), ("C10c", "solo0,mid", ALLMODES, 800, None, None, False),
             ("C10d", "solo0,mid", ALLMODES, 800, None, None, False)],
@@ -210,9 +216,10 @@ def run(prop, tier, replay=None):
     samples = []
     if replay:
         rp = json.load(open(replay))
-        plans = [("replay", ALLCTX + ",solo37", ALLMODES, None, None, None, False)]
+        plans = [("replay", ALLCTX + ",solo37", ALLMODES, None, None, None, False), ("replay", "edge", "fit", None, None, None, False, 16)]
     allrecs = {}
-    for pi, (cname, ctx, modes, nq, nt, flt, thorough_only) in enumerate(plans):
+    for pi, plan in enumerate(plans):
+        (cname, ctx, modes, nq, nt, flt, thorough_only), pchunk = plan[:7], (plan[7] if len(plan) > 7 else 8)
         if thorough_only and tier == "quick":
             exhaustive = False
             continue
@@ -232,14 +239,14 @@ def run(prop, tier, replay=None):
         for r in recs:
             r.pop("runs", None)
             r["id"] = "%s.%d/%s" % (cname, pi, r["id"]) if pi else "%s/%s" % (cname, r["id"])
-        events = A.run_lines(recs, ctx=ctx, modes=modes)
+        events = A.run_lines(recs, ctx=ctx, modes=modes, chunk=pchunk)
         f, o, j = judge(prop, events)
         failures += f
         others.update(o)
         judged += j
         for e in events:
             nclasses.add(A.klass(e))
-            allrecs[e["id"]] = (e, ctx, modes)
+            allrecs[e["id"]] = (e, ctx, modes, pchunk)
         for e in events[:1] + events[-1:]:
             samples.append({"text": e["text"], "status": e["status"],
                             "runs": [{"opts": r["o"], "ctx": r["ctx"], "mode": r["mode"], "ret": r["ret"], "bytes": bytes(r["bytes"]).hex()} for r in e["runs"][:2]]})
@@ -250,11 +257,11 @@ def run(prop, tier, replay=None):
     if viol and not replay:
         groups = collections.defaultdict(dict)
         for (rec, reason, detail) in viol:
-            _, ctx, modes = allrecs[rec["id"]]
-            groups[(ctx, modes)][rec["id"]] = slim(rec)
+            _, ctx, modes, pchunk = allrecs[rec["id"]]
+            groups[(ctx, modes, pchunk)][rec["id"]] = slim(rec)
         rep = set()
-        for (ctx, modes), recs in groups.items():
-            ev2 = A.run_lines(list(recs.values()), ctx=ctx, modes=modes)
+        for (ctx, modes, pchunk), recs in groups.items():
+            ev2 = A.run_lines(list(recs.values()), ctx=ctx, modes=modes, chunk=pchunk)
             f2, _, _ = judge(prop, ev2)
             rep |= {(r["id"], reason) for (r, reason, _) in f2}
         confirmed = [v for v in viol if (v[0]["id"], v[1]) in rep]
